@@ -120,3 +120,77 @@ pub fn c17_canon_args(m: &mut Mon, w: &mut World, idx: usize, id: u32, rq: &Req)
     let _ = interp::dec;
     false
 }
+
+// ---------------- C13 at the stream size limit ----------------
+/// Scripts from `script3::gen_c13_limit`: n*m appends into `$big` within one run. A stream holds at most
+/// STREAM_MAX_SIZE - 1 values: below that every append must be there exactly once (canon length == n*m) and the
+/// limit must not trigger; at or above it the run must end with the stream-size error and never reach the probe.
+pub fn c13_limit(m: &mut Mon, w: &mut World) {
+    const LIMIT: usize = 1024;
+    let mut n = 0usize;
+    let mut k = 0usize;
+    let mut calls = vec![];
+    w.sc.ast.calls(&mut calls);
+    for c in calls {
+        if let Node::Call { fname, .. } = c {
+            if let Some(x) = fname.strip_prefix("bigb") {
+                k = x.parse().unwrap_or(0);
+            } else if let Some(x) = fname.strip_prefix("big") {
+                n = x.parse().unwrap_or(0);
+            }
+        }
+    }
+    if n == 0 || k == 0 {
+        return;
+    }
+    let total = n * k;
+    let mut lens: Vec<(u32, serde_json::Value)> = vec![];
+    let mut limit_errors = 0;
+    for r in &w.runs {
+        if r.taint.contains("forged") {
+            return;
+        }
+        for q in r.out.reqs.values() {
+            if q.function == "len1" {
+                lens.push((r.eid, q.args.first().cloned().unwrap_or_default()));
+            }
+        }
+        if r.out.code != 0 && r.out.msg.contains("stream size goes over the allowed limit") {
+            limit_errors += 1;
+        }
+    }
+    if total < LIMIT {
+        if limit_errors > 0 {
+            let d = format!("{n}x{k} = {total} appends (below the limit of {LIMIT}) but {limit_errors} runs ended with the stream size error\nscript: {}", w.sc.script);
+            m.report(w, None, "C13", "limit-hit-below-limit", d);
+            return;
+        }
+        for (eid, v) in &lens {
+            if v.as_u64() != Some(total as u64) {
+                let d = format!("eid {eid}: the stream received {n}x{k} = {total} appends but its canon has length {v}\nscript: {}", w.sc.script);
+                m.report(w, None, "C13", "stream-length-wrong", d);
+                return;
+            }
+        }
+        let lossless = !["drop", "crash_volatile", "partition_lossy", "rollback"].iter().any(|f| w.sc.fault_cfg.get(*f).cloned().unwrap_or(0) > 0);
+        if w.quiescent() && lossless && w.runs.iter().all(|r| r.out.code == 0) && lens.is_empty() {
+            let d = format!("{n}x{k} = {total} appends: the history is quiescent but the length probe was never requested\nscript: {}", w.sc.script);
+            m.report(w, None, "C13", "stream-length-probe-missing", d);
+            return;
+        }
+        if !lens.is_empty() {
+            m.count("c13_limit_below_checked");
+            m.nontrivial.insert(crate::monitors::hash64(&format!("lim{n}x{k}")));
+        }
+    } else {
+        if let Some((eid, v)) = lens.first() {
+            let d = format!("eid {eid}: {n}x{k} = {total} appends reach the stream size limit of {LIMIT}, yet the run went on and the canon has length {v}\nscript: {}", w.sc.script);
+            m.report(w, None, "C13", "limit-not-enforced", d);
+            return;
+        }
+        if limit_errors > 0 {
+            m.count("c13_limit_enforced");
+            m.nontrivial.insert(crate::monitors::hash64(&format!("limE{n}x{k}")));
+        }
+    }
+}
